@@ -7,10 +7,10 @@ AccList(f) == SetToSeq({<<pg, f[pg]>> : pg \in DOMAIN f})
 DataList(f) == SetToSeq({<<k[1], k[2], f[k]>> : k \in DOMAIN f})
 CaseOf(id, p, s) == [id |-> id, tag |-> id, prog |-> p, pc |-> s.pc, gas |-> s.gas, regs |-> s.regs, acc |-> AccList(s.acc),
                      data |-> DataList(s.data), hp |-> s.hp, hl |-> s.hl]
-MK == SetToSeq(MemKeys)
-SK == SetToSeq(SbrkKeys)
-Out == [i \in 1..Len(MK) |-> CaseOf("mem", MemProg(MK[i][1], MK[i][2]), MemState(MK[i][2]))]
-       \o [i \in 1..Len(SK) |-> CaseOf("sbrk", SbrkProg(SK[i]), SbrkState(SK[i]))]
+Out == LET mk == SetToSeq(MemKeys)
+           sk == SetToSeq(SbrkKeys)
+       IN [i \in 1..Len(mk) |-> CaseOf("mem", MemProg(mk[i][1], mk[i][2]), MemState(mk[i][2]))]
+          \o [i \in 1..Len(sk) |-> CaseOf("sbrk", SbrkProg(sk[i]), SbrkState(sk[i]))]
 ASSUME ndJsonSerialize(OutFile, Out)
 GenInit == x = 0
 GenNext == FALSE /\ x' = x
